@@ -122,7 +122,7 @@ class PolyChordOptimizer(Optimizer):
 
         self.warning('Store the polychord results')
         NEST_out = {'solutions': {}}
-        data = np.loadtxt(os.path.join(self.dir_polychord, '1-.txt'))
+        data = np.loadtxt(os.path.join(self.dir_polychord, '1-.txt'), ndmin=2)
 
         # self.get_poly_cluster_number(self.dir_polychord)
         NEST_stats = self.get_poly_stats(self.dir_polychord)
@@ -147,7 +147,7 @@ class PolyChordOptimizer(Optimizer):
                 # cycle through clusters
                 for midx in range(num_clusters):
                     data = np.loadtxt(os.path.join(
-                        self.dir_polychord, 'clusters/1-_{0}.txt'.format(midx+1)))
+                        self.dir_polychord, 'clusters/1-_{0}.txt'.format(midx+1)), ndmin=2)
                     modes_array.append(data[:, 2:num_fit_params+2])
                     modes_weights.append(data[:, 0])
         else:
@@ -236,7 +236,7 @@ class PolyChordOptimizer(Optimizer):
                 filename = 'clusters/1-_{0}.txt'.format(midx+1)
             else:
                 filename = '1-.txt'
-            data = np.loadtxt(os.path.join(self.dir_polychord, filename))
+            data = np.loadtxt(os.path.join(self.dir_polychord, filename), ndmin=2)
             # find maximum likelihood index
             mL_idx = np.where(data[:, 1] == np.min(data[:, 1]))
             stats['modes'][midx]['maximum a posterior'] = {}
